@@ -260,8 +260,12 @@ class Run:
                     cmp=st.get('cmp', 'METADATA'))
             target = self.sb.path(p)
             spelled = _spell(target, st.get('spell'))
-            call = lambda: builder.build_file_with_comparison(       # noqa: E731
-                spelled, FileComparison[st.get('cmp', 'METADATA')], f, callee, *args, **kw)
+            if st.get('cmp', 'METADATA') == 'METADATA' and int(digest([p, f, self.build_no]), 16) % 2:
+                # the short form of the same call (METADATA is its documented comparison)
+                call = lambda: builder.build_file(spelled, f, callee, *args, **kw)    # noqa: E731
+            else:
+                call = lambda: builder.build_file_with_comparison(       # noqa: E731
+                    spelled, FileComparison[st.get('cmp', 'METADATA')], f, callee, *args, **kw)
         else:
             self.ev(ev='sb_begin', f=f, args=terms.to_term(args), kw=terms.to_term(kw))
             call = lambda: builder.subbuild(f, callee, *args, **kw)   # noqa: E731
@@ -652,7 +656,10 @@ class Run:
             a_name = None
         def the_build():
             try:
-                v = FileBuilder.build_versioned(a_cache, a_name, a_vers, a_func)
+                if a_vers == {} and not bad and self.build_no % 2:
+                    v = FileBuilder.build(a_cache, a_name, a_func)       # the short form: no versions
+                else:
+                    v = FileBuilder.build_versioned(a_cache, a_name, a_vers, a_func)
                 return {'out': 'returned', 'v': terms.to_term(v), 'err': '', 'same': False}
             except (Exception, UserBaseError) as x:
                 return {'out': 'raised', 'v': {'k': 'none'}, 'err': x.__class__.__name__,
